@@ -42,6 +42,9 @@ var filterFlagNames = map[FilterFlag]string{
 	FilterFlagLog:   "log",
 }
 
+// filterFlags lists the flags in the order in which String prints them.
+var filterFlags = []FilterFlag{FilterFlagTSync, FilterFlagLog}
+
 // String returns a string representation of the FilterFlag.
 func (f FilterFlag) String() string {
 	if name, found := filterFlagNames[f]; found {
@@ -49,10 +52,10 @@ func (f FilterFlag) String() string {
 	}
 
 	var list []string
-	for flag, name := range filterFlagNames {
+	for _, flag := range filterFlags {
 		if f&flag != 0 {
 			f ^= flag
-			list = append(list, name)
+			list = append(list, filterFlagNames[flag])
 		}
 	}
 	if f != 0 {
